@@ -279,9 +279,8 @@ def stepC19One : Step := fun toks =>
             | none => "err" | some a' => if a' = a then "eq" else "ne"
           s!"{text t} rt={rt}"), "-")
   | ["c19_addr_parts", n, k, sp, vw, p] => do
-    match ← C12.mkAddr n k sp vw p with
-    | none => pure ("err", "err")
-    | some a =>
+    let a ← C12.mkAddr n k sp vw p
+    if !(C12.constructible C12.validKey a) then pure ("err", "err") else
       let m := match addrJ C12.H a with
         | none => "fmt-err"
         | some j =>
